@@ -70,6 +70,7 @@ FLOORS = {"quick": {"evaluations": 120, "pending_overlap_pairs": 150, "apdus_att
                     "replies_matched": 120, "distinct": 4,
                     "slow_request_rounds": 1, "link_fault_rounds": 3,
                     "rounds_with_a_client_hanging_up_on_its_long_request": 2,
+                    "rounds_in_legacy_mode": 6,
                     "device_error_replies_in_fault_rounds": 3,
                     "state_replies_compared_with_device_state": 30,
                     "advances_refused_by_device": 10, "late_answer_rounds_over_tcp": 2, "slow_sender_rounds": 3,
@@ -78,6 +79,7 @@ FLOORS = {"quick": {"evaluations": 120, "pending_overlap_pairs": 150, "apdus_att
                        "apdus_attributed": 200000, "replies_matched": 15000, "distinct": 300,
                        "slow_request_rounds": 5, "link_fault_rounds": 60,
                        "rounds_with_a_client_hanging_up_on_its_long_request": 40,
+                       "rounds_in_legacy_mode": 100,
                        "device_error_replies_in_fault_rounds": 100,
                        "state_replies_compared_with_device_state": 3000,
                        "advances_refused_by_device": 1000, "late_answer_rounds_over_tcp": 40, "slow_sender_rounds": 40}}
@@ -88,6 +90,7 @@ def shards(tier, seed):
         return [{"seed": seed * 100 + i, "rounds": 2, "max_clients": 8, "per_client": 3,
                  "slow": [6.5] if i == 0 else [],
                  "impatient": [3.5] if i in (1, 2) else [],
+                 "v1_rounds": 2 if i in (0, 3, 6, 7) else 0,
                  "fault_rounds": 1 if 1 <= i <= 3 else 0,
                  "late": [12.5, 35.0] if i in (4, 5) else [],
                  "slowsend_rounds": 1 if i in (5, 6, 7) else 0,
@@ -96,7 +99,7 @@ def shards(tier, seed):
                  "uihb_tail": [12.5] if i == 2 else []} for i in range(8)]
     slow = {0: [6.5], 1: [12.0], 2: [32.0], 3: [62.0], 4: [125.0]}
     return [{"seed": seed * 100 + i, "rounds": 60, "max_clients": 16, "per_client": 4,
-             "slow": slow.get(i, []), "impatient": [3.5, 6.5, 12.0],
+             "slow": slow.get(i, []), "impatient": [3.5, 6.5, 12.0], "v1_rounds": 8,
              "fault_rounds": 6 if i >= 5 else 0,
              "late": [10.5, 35.0, 12.5, 61.0, 30.0, 29.0] if i >= 5 else [],
              "slowsend_rounds": 3, "fatal_rounds": 8,
@@ -154,7 +157,18 @@ class JumpClock:
         self._saved = []
 
 
-def make_requests(rng):
+def make_requests(rng, v1=False):
+    if v1:
+        # legacy (--version-one) mode: getPubKey, sign (hash form) and version
+        return [
+            ("pubkey", lambda: {"command": "getPubKey", "version": 1,
+                                "keyId": rng.choice(ALL_PATHS)}),
+            ("pubkey", lambda: {"command": "getPubKey", "version": 1,
+                                "keyId": rng.choice(ALL_PATHS)}),
+            ("signhash", lambda: rq.sign_hash_request(ALL_PATHS[3], rng.randbytes(32),
+                                                      version=1)),
+            ("version", lambda: {"command": "version"}),
+        ]
     tx = btctx.gen_tx(rng, max_in=3, max_out=2)
     blocks = [gb.gen_block(rng, 19, tiny=True), gb.gen_block(rng, 20, tiny=True)]
     bros = [[gb.gen_block(rng, 19, tiny=True)], []]
@@ -258,7 +272,7 @@ def expected_from_apdus(kind, apdus):
 
 
 def run_round(acc, spec, rnd, rng, slow=None, fault=None, late=None, slowsend=False,
-              uihb_tail=None, fatal=None, quiet=None, impatient=None):
+              uihb_tail=None, fatal=None, quiet=None, impatient=None, v1=False):
     """fault: {"after": k, "efail": j, "kind": ...} - the link fails at the k-th exchange
     of the round and the next j reconnections find no device; clients keep sending for
     some seconds, so that any repair work done outside a request (a background retry)
@@ -292,7 +306,7 @@ def run_round(acc, spec, rnd, rng, slow=None, fault=None, late=None, slowsend=Fa
     if fault:
         nclients, per = 3, 7
     case = {"seed": spec["seed"], "round": rnd}
-    with Stack(dev) as s:
+    with Stack(dev, version_one=v1) as s:
         delay_rng = random.Random(rng.getrandbits(32))
 
         def hook(bus, apdu):
@@ -352,7 +366,7 @@ def run_round(acc, spec, rnd, rng, slow=None, fault=None, late=None, slowsend=Fa
         while srv.server is None and time.time() - t0 < 10:
             time.sleep(0.002)
         bring_up = len(s.bus.events)
-        gens = make_requests(rng)
+        gens = make_requests(rng, v1)
         results = {}
         plan = {}
         for c in range(nclients):
@@ -673,7 +687,7 @@ def run_round(acc, spec, rnd, rng, slow=None, fault=None, late=None, slowsend=Fa
         if fatal and reply.get("errorcode") not in (0, 1):
             acc.count("error_replies_in_rounds_ended_by_a_fatal_request")
             continue
-        if fault and reply.get("errorcode") == -905:
+        if fault and reply.get("errorcode") == (-2 if v1 else -905):
             # the faulted request and those that found no device while reconnecting
             acc.count("device_error_replies_in_fault_rounds")
             continue
@@ -733,6 +747,17 @@ def run_shard(spec, acc):
     for k, total in enumerate(spec.get("impatient", [])):
         acc.count("rounds_with_a_client_hanging_up_on_its_long_request")
         run_round(acc, spec, 8000 + k, rng, slow=total, impatient=rng.choice([0.2, 0.5, 1.2]))
+    for k in range(spec.get("v1_rounds", 0)):
+        # the manager in legacy (--version-one) mode: plain rounds and rounds with a link
+        # failure (the repair's bring-up is the one multi-exchange dialogue of that mode)
+        acc.count("rounds_in_legacy_mode")
+        if k % 2 == 0:
+            run_round(acc, spec, 9000 + k, rng, v1=True)
+        else:
+            run_round(acc, spec, 9000 + k, rng, v1=True, fault={
+                "after": rng.randint(2, 8), "efail": rng.choice([None, 1]),
+                "gap": rng.choice([1.3, 1.7]),
+                "kind": rng.choice(["read_error", "write_error"])})
     for k in range(spec.get("slowsend_rounds", 0)):
         run_round(acc, dict(spec, max_clients=6, per_client=4), 4000 + k, rng, slowsend=True)
     for k, d in enumerate(spec.get("uihb_tail", [])):
